@@ -29,11 +29,11 @@ Qed.
 Lemma piece_end_pos : forall sz, 0 < sz -> 0 < piece_end sz.
 Proof. intros sz H. unfold piece_end. rewrite piece_size_val. lia. Qed.
 
-(* the repaired last length is the remaining byte count *)
-Lemma last_len_repaired_spec : forall sz, 0 < sz ->
-  last_len_repaired sz = N.min piece_size (sz - piece_size * (piece_end sz - 1)).
+(* the last length the code computes (since 025b717) is the remaining byte count *)
+Lemma last_len_code_spec : forall sz, 0 < sz ->
+  last_len_code sz = N.min piece_size (sz - piece_size * (piece_end sz - 1)).
 Proof.
-  intros sz H. unfold last_len_repaired, piece_end. rewrite piece_size_val. lia.
+  intros sz H. unfold last_len_code, piece_end. rewrite piece_size_val. lia.
 Qed.
 
 Lemma nonlast_full : forall sz p, p <? piece_end sz = true -> p <> piece_end sz - 1 ->
@@ -58,29 +58,29 @@ Proof.
     + apply N.eqb_neq in El. rewrite nonlast_full; auto.
 Qed.
 
-(* THE POSITIVE THEOREM, for the repaired computation of the last length *)
-Theorem metadata_slices_repaired : forall m p, send_metadata_piece_repaired false m p = spec_reply m p.
+(* THE POSITIVE THEOREM *)
+Theorem metadata_slices : forall m p, send_metadata_piece false m p = spec_reply m p.
 Proof.
-  intros m p. apply send_with_spec. intro H. apply last_len_repaired_spec. exact H.
+  intros m p. apply send_with_spec. intro H. apply last_len_code_spec. exact H.
 Qed.
 
 (* the code as it is agrees with the specification exactly when the size is not a multiple of 16 KiB *)
-Theorem metadata_slices_code_nonmultiple : forall m p,
-  size_of m mod piece_size <> 0 -> send_metadata_piece false m p = spec_reply m p.
+Theorem metadata_slices_old_nonmultiple : forall m p,
+  size_of m mod piece_size <> 0 -> send_metadata_piece_old false m p = spec_reply m p.
 Proof.
-  intros m p H. apply send_with_spec. intros _. unfold last_len_code, piece_end in *.
+  intros m p H. apply send_with_spec. intros _. unfold last_len_old, piece_end in *.
   rewrite piece_size_val in *. lia.
 Qed.
 
 (* ... and for EVERY non-empty multiple of 16 KiB the last piece is answered with no bytes *)
-Theorem metadata_last_piece_empty_on_multiples : forall m,
+Theorem metadata_last_piece_empty_on_multiples_old : forall m,
   0 < size_of m -> size_of m mod piece_size = 0 ->
-  send_metadata_piece false m (piece_end (size_of m) - 1) = MData (piece_end (size_of m) - 1) (size_of m) [].
+  send_metadata_piece_old false m (piece_end (size_of m) - 1) = MData (piece_end (size_of m) - 1) (size_of m) [].
 Proof.
-  intros m Hp Hm. unfold send_metadata_piece, send_metadata_piece_with. fold (size_of m). cbn [orb].
+  intros m Hp Hm. unfold send_metadata_piece_old, send_metadata_piece_with. fold (size_of m). cbn [orb].
   pose proof (piece_end_pos _ Hp) as Hpe.
   assert (piece_end (size_of m) <=? piece_end (size_of m) - 1 = false) as -> by (apply N.leb_gt; lia).
-  rewrite N.eqb_refl. unfold last_len_code. rewrite Hm. unfold slice. reflexivity.
+  rewrite N.eqb_refl. unfold last_len_old. rewrite Hm. unfold slice. reflexivity.
 Qed.
 
 Lemma repeat_len : forall n, size_of (repeat 0 n) = N.of_nat n.
@@ -95,13 +95,13 @@ Definition wit_a : list N := repeat 0 (N.to_nat 16384).
 Lemma wit_a_size : size_of wit_a = 16384.
 Proof. unfold wit_a. rewrite repeat_len. apply N2Nat.id. Qed.
 
-Theorem metadata_slices_refuted : exists (m : list N) (p : N),
-  p < piece_end (size_of m) /\ send_metadata_piece false m p <> spec_reply m p.
+Theorem metadata_slices_old_refuted : exists (m : list N) (p : N),
+  p < piece_end (size_of m) /\ send_metadata_piece_old false m p <> spec_reply m p.
 Proof.
   exists wit_a, 0. split.
   - rewrite wit_a_size. vm_compute. reflexivity.
-  - assert (H1 : send_metadata_piece false wit_a 0 = MData 0 16384 []).
-    { pose proof (metadata_last_piece_empty_on_multiples wit_a) as H.
+  - assert (H1 : send_metadata_piece_old false wit_a 0 = MData 0 16384 []).
+    { pose proof (metadata_last_piece_empty_on_multiples_old wit_a) as H.
       rewrite wit_a_size in H.
       assert (E : piece_end 16384 - 1 = 0) by (vm_compute; reflexivity). rewrite E in H.
       apply H; vm_compute; reflexivity. }
@@ -163,11 +163,35 @@ Proof.
   - unfold size_of, piece_end. rewrite piece_size_val. lia.
 Qed.
 
-(* the truncated reject message *)
-Lemma reject_truncated_example : reject_build (u64 (-1)) = BuildTruncated.
-Proof. vm_compute. reflexivity. Qed.
-Lemma reject_ok_example : reject_build 3 = BuildOk /\ reject_build 9999999999999999999 = BuildOk /\ reject_build 10000000000000000000 = BuildTruncated.
-Proof. vm_compute. repeat split; reflexivity. Qed.
+(* the reject message is never truncated (buffer 8 + 40 since e099dce) for any 64-bit piece index *)
+Lemma ndigits_fuel_bound : forall (k : nat) (f : nat) (n : N),
+  n < 10 ^ N.of_nat (S k) -> ndigits_fuel f n <= N.of_nat (S k).
+Proof.
+  induction k as [|k IH]; intros f n H.
+  - destruct f; cbn [ndigits_fuel]; [lia|].
+    change (10 ^ N.of_nat 1) with 10 in H.
+    assert (n <? 10 = true) as -> by (apply N.ltb_lt; exact H). lia.
+  - destruct f; cbn [ndigits_fuel]; [lia|].
+    destruct (n <? 10); [lia|].
+    assert (n / 10 < 10 ^ N.of_nat (S k)).
+    { replace (N.of_nat (S (S k))) with (N.succ (N.of_nat (S k))) in H by lia.
+      rewrite N.pow_succ_r' in H. apply N.div_lt_upper_bound; lia. }
+    specialize (IH f (n / 10) H0). lia.
+Qed.
+
+Theorem reject_never_truncated : forall piece, piece < 2 ^ 64 -> reject_build piece = BuildOk.
+Proof.
+  intros piece H. unfold reject_build, reject_text_len, reject_buf_len, ndigits.
+  assert (B : ndigits_fuel 25 piece <= 20).
+  { apply (ndigits_fuel_bound 19). change (N.of_nat 20) with 20.
+    eapply N.lt_trans; [exact H|]. vm_compute. reflexivity. }
+  change (8 + Params.c20_reject_buf_extra) with 48.
+  assert ((48 <? 24 + ndigits_fuel 25 piece) = false) as -> by (apply N.ltb_ge; lia).
+  assert ((48 =? 24 + ndigits_fuel 25 piece) = false) as -> by (apply N.eqb_neq; lia).
+  reflexivity.
+Qed.
+Example reject_ok_example : reject_build 3 = BuildOk /\ reject_build (u64 (-1)) = BuildOk.
+Proof. vm_compute. split; reflexivity. Qed.
 
 (* non-vacuity examples *)
 Example ex_nonmultiple : exists m : list N, size_of m mod piece_size <> 0.
